@@ -235,3 +235,33 @@ Theorem C08_real_algorithm_agrees_with_reference :
   (b = true <-> ws = []).
 Proof. intros env d t ps W Ht Hps. exact (useful_agrees_with_covers env d t ps W Ht Hps). Qed.
 Print Assumptions C08_real_algorithm_agrees_with_reference.
+
+(* ---- the link to the SOURCE SEMANTICS (Exhaust/ExhSem.v, ExhSound.v): the pattern semantics of the
+   exhaustiveness development (Pat.pat_matches on Pat.value) and the pattern matching of the
+   interpreter Lang/Sem.v (Sem.pmatch on run-time values) agree on well-typed patterns and values;
+   hence a match the REAL algorithm accepts ([exh_pats]: the typed patterns translated, side
+   conditions computed, Useful.check_exhaustive = Some []) always has an arm that matches: Sem.v is
+   never stuck on "no arm matches" (code 41), which is what the property promises the user. *)
+From GV Require Import Lang.Ast Lang.ValTy Compile.ValEnc Compile.TSemSemAgg Exhaust.ExhSem.
+From GV Require Lang.Sem.
+
+Theorem C08_pattern_semantics_agree : forall P p t bs v w,
+  gpat_ok P p t bs -> has_enc P t v w ->
+  (Sem.pmatch P p v <> None <-> Pat.pat_matches (tr_pat P p) (tr_val P v t) = true).
+Proof. exact match_agree. Qed.
+Print Assumptions C08_pattern_semantics_agree.
+
+Theorem C08_accepted_match_has_a_matching_arm : forall P t ps v w,
+  exh_pats P t ps = true -> has_enc P t v w ->
+  exists p, In p ps /\ Sem.pmatch P p v <> None.
+Proof. exact exh_pats_sound. Qed.
+Print Assumptions C08_accepted_match_has_a_matching_arm.
+
+Theorem C08_accepted_match_runs_an_arm : forall P f v w en scrut_ty arms,
+  exh_pats P scrut_ty (map fst arms) = true -> has_enc P scrut_ty v w ->
+  exists p body bs, In (p, body) arms /\ Sem.pmatch P p v = Some bs /\
+    sem_arms P f v en arms =
+      Sem.obind (Sem.eval f P (Sem.bind_all (Sem.push_scope en) bs) body)
+        (fun '(res, en1) => Sem.Done (res, Sem.pop_scope en1)).
+Proof. exact exh_match_not_stuck. Qed.
+Print Assumptions C08_accepted_match_runs_an_arm.
